@@ -327,6 +327,11 @@ impl TestSignerFactory for RecFactory {
 /// Install the recording signer factory (process-wide; the recorders themselves are thread-local).
 pub fn install_recording_signer() {
 	SIGNER_FACTORY.set(Arc::new(RecFactory));
+	tolerate_observations();
+}
+
+/// Library debug assertions that are observations, not verdicts (DESIGN.md 9.3); registered by every netsim check.
+pub fn tolerate_observations() {
 	// Every netsim check calls this first. One library debug assertion is reachable from the harness's own
 	// `list_channels` calls in honest operation and is an observation, not a verdict (DESIGN.md §9.3): the
 	// balance predictor includes the peer's not yet committed HTLCs and reports an overdraft although every
@@ -336,6 +341,13 @@ pub fn install_recording_signer() {
 	// in the serialized queue; a manager written while a duplicate claim's monitor update is in flight contains
 	// one. The code path after the assertion handles it (nothing to do), release builds load normally.
 	vcore::tolerate_panic("Non-event-generating channel freeing should not appear in our queue", "obs:manager-read-debug-assert-free-duplicate-claim");
+}
+
+/// The test ChainMonitor of the library re-reads every monitor it has just written and asserts equality. That is
+/// C12's subject (two listed C12 findings about claim packages that do not re-read equal make it fire); every
+/// other netsim check labels such a case as foreign and gives it up instead of reporting it as its own verdict.
+pub fn tolerate_monitor_roundtrip_tripwire() {
+	vcore::tolerate_panic("assertion failed: new_monitor == *monitor", "foreign-failure:C12:monitor-roundtrip");
 }
 
 // -------------------------------------------------------------------------------------------------
